@@ -67,7 +67,9 @@ def gen(prop, stream, tier, avoid):
     rng = stream("ops")
     kn = stream("knobs")
     cf = stream("configs")
-    knobs = {"cache_size": kn.pick([None, None, "1", "16", "1024"])}
+    knobs = {"cache_size": kn.pick([None, None, "1", "16", "1024"]),
+             # usage: all objects of one class use ONE evaluator instance (obj2.evaluator = obj1.evaluator)
+             "share_evaluator": kn.chance(0.25)}
     pooled = kn.chance(0.55)
     nobj = kn.pick([1, 1, 2, 3])
     objs = []
@@ -342,9 +344,14 @@ def execute_workload(script, cfg):
     simpool.configure(h64(script.get("seed", 0), script.get("run", 0), "pool", cfg["sched"]), cfg["chunk"], cfg["faults"], None)
     objs = []
     shared = {}
+    evals = {}
     for oi, spec in enumerate(script["objects"]):
         o = _build(spec, cfg, shared, oi)
         nd = shapes.DIRS[spec["kind"]]
+        if script.get("knobs", {}).get("share_evaluator"):
+            ev = evals.setdefault(type(o.evaluator), o.evaluator)
+            if ev is not o.evaluator:
+                o.evaluator = ev
         o.sample_size = 4
         objs.append(o)
     cont = g.multi.SurfaceContainer()
